@@ -189,9 +189,12 @@ var PayloadFault func(kind string, num int, payload []byte, w [3]int) []byte
 var IntFault func(v int64) (string, bool)
 
 type File struct {
-	EOL     string // "lf", "crlf", "cr"
-	Version string // e.g. "1.7"
-	Revs    []Revision
+	// NoFreeHead: an update that frees objects does not rewrite the entry of object 0 (producers that do not
+	// maintain the free list): its section then holds the freed objects' entries only
+	NoFreeHead bool
+	EOL        string // "lf", "crlf", "cr"
+	Version    string // e.g. "1.7"
+	Revs       []Revision
 	// SizeOverride, when non-zero, is written as the trailer /Size instead of the true value (fault injection).
 	SizeOverride int64
 	// PrevFormat, when set, is the fmt verb /Prev offsets are written with, in every section.
@@ -356,7 +359,7 @@ func (f *File) Bytes() ([]byte, *Layout, error) {
 				maxNum = n
 			}
 		}
-		if ri == 0 || len(rev.Free) > 0 {
+		if ri == 0 || (len(rev.Free) > 0 && !f.NoFreeHead) {
 			// head of the free list (object 0)
 			nextFree := 0
 			if len(rev.Free) > 0 {
